@@ -37,9 +37,24 @@ class Modes:
     # ------------------------------------------------------------ one atom
     def atom_modes(self, atom: ast.AST, pol: bool, f: FuncInfo, at: ast.AST, depth: int = 0) -> Set[str]:
         """Mode atoms implied when ``atom`` evaluates to ``pol``."""
+        out: Set[str] = set()
+        # <local> is not None, the local being None on some paths and a value on one other:
+        # the value's own definition site (and its guards) is what holds
+        if isinstance(atom, ast.Compare) and len(atom.ops) == 1 and isinstance(atom.ops[0], (ast.Is, ast.IsNot)) \
+                and isinstance(atom.comparators[0], ast.Constant) and atom.comparators[0].value is None and \
+                isinstance(atom.left, ast.Name) and (isinstance(atom.ops[0], ast.IsNot) == pol) and depth < 4 \
+                and hasattr(at, "parent"):
+            rdefs = paths.reaching_defs(atom.left.id, at, f.node)
+            vals = [(st, v) for st, v in rdefs if not (isinstance(v, ast.Constant) and v.value is None)]
+            if len(rdefs) > 1 and len(vals) == 1 and vals[0][1] is not None and isinstance(vals[0][0], ast.stmt):
+                st, v = vals[0]
+                for t, tp in paths.guards(st, stop=f.node):
+                    out |= self._implies(t, tp, f, st, max(depth, 1))
+                sub = ast.Compare(left=v, ops=[ast.IsNot()], comparators=[ast.Constant(value=None)])
+                out |= self.atom_modes(sub, True, f, st, depth=max(depth, 1) + 1)
+                return out
         e = paths.resolve_flow(atom, at, f.node) if depth == 0 else atom
         e = paths.inline_locals(e, f.node)
-        out: Set[str] = set()
         # x is None / x is not None
         if isinstance(e, ast.Compare) and len(e.ops) == 1 and isinstance(e.ops[0], (ast.Is, ast.IsNot)) and \
                 isinstance(e.comparators[0], ast.Constant) and e.comparators[0].value is None:
